@@ -245,6 +245,42 @@ def _format_macro(n):
     return None
 
 
+def _chain_parts(c):
+    """the conjuncts of a condition that is a chain `a && let P = e && b ..` holding at least one `let`, else None"""
+    c = strip(c)
+    parts = []
+
+    def flat(x):
+        x = strip(x)
+        if x.get("k") == "Binary" and x.get("op") == "And":
+            flat(x["a"])
+            flat(x["b"])
+        else:
+            parts.append(x)
+    flat(c)
+    if len(parts) > 1 and any(p.get("k") == "LetExpr" for p in parts):
+        return parts
+    return None
+
+
+def _let_chain_desugar(n):
+    """`if a && let P = e && b { T } else { E }` reads as the nested ifs it stands for: `if a { if let P = e { if b { T } else { E } }
+    else { E } } else { E }` (the bindings of a `let` are in scope of what follows it; E is shared, not copied)"""
+    if n.get("k") != "If":
+        return None
+    parts = _chain_parts(n["cond"])
+    if parts is None:
+        return None
+    els = norm(n["else"]) if n.get("else") is not None else None
+    cur = norm(n["then"])
+    for part in reversed(parts):
+        node = {"k": "If", "cond": norm(part), "then": cur, "sp": n.get("sp"), "ty": n.get("ty"), "chain": True}
+        if els is not None:
+            node["else"] = els
+        cur = node
+    return cur
+
+
 def norm(n):
     """Return a re-sugared deep copy of a HIR expression tree."""
     if isinstance(n, list):
@@ -253,7 +289,7 @@ def norm(n):
         return n
     if "k" in n:
         n = strip(n)
-        for f in (_try_desugar, _await_desugar, _for_desugar, _format_macro):
+        for f in (_try_desugar, _await_desugar, _for_desugar, _format_macro, _let_chain_desugar):
             r = f(n)
             if r is not None:
                 return r
@@ -266,6 +302,10 @@ def norm(n):
             out[k] = norm(v)
         else:
             out[k] = v
+    if out.get("k") == "Struct" and isinstance(out.get("path"), dict) and out["path"].get("res") == "self" and out.get("ty"):
+        # `Self { .. }` inside an impl: the struct literal of the type it stands for
+        ty = str(out["ty"]).split("<", 1)[0].strip()
+        out["path"] = dict(out["path"], path=ty, res="def", self_alias=True)
     return out
 
 
